@@ -5,7 +5,124 @@ From MsmV Require Import Lib.Result Lib.PyList Lib.QMat Model.Ergodic Model.Peq 
 Import ListNotations.
 Local Open Scope nat_scope.
 
-Section Identity.
+(* ------------------------------------------------------------------ *)
+(* helpers: the matrix product distributes over entrywise sums          *)
+(* ------------------------------------------------------------------ *)
+Lemma mmul_madd_l n p m B C A : 0 < p -> wf n p B -> wf n p C -> wf p m A ->
+  mmul (madd B C) A = madd (mmul B A) (mmul C A).
+Proof.
+  intros Hp HB HC HA.
+  assert (HBC := wf_madd n p B C HB HC).
+  assert (HBA := wf_mmul n p m B A Hp HB HA).
+  assert (HCA := wf_mmul n p m C A Hp HC HA).
+  apply (mat_ext n m).
+  - apply (wf_mmul n p m); assumption.
+  - apply wf_madd; assumption.
+  - intros i j Hi Hj.
+    rewrite (mget_mmul n p m _ A i j Hp HBC HA Hi Hj).
+    rewrite (mget_madd n m _ _ i j HBA HCA Hi Hj).
+    rewrite (mget_mmul n p m B A i j Hp HB HA Hi Hj), (mget_mmul n p m C A i j Hp HC HA Hi Hj).
+    rewrite <- qsum_map_plus. apply qsum_map_ext. intros k Hk. apply in_seq in Hk.
+    rewrite (mget_madd n p B C i k HB HC Hi) by lia. ring.
+Qed.
+
+Lemma mmul_msub_l n p m B C A : 0 < p -> wf n p B -> wf n p C -> wf p m A ->
+  mmul (msub B C) A = msub (mmul B A) (mmul C A).
+Proof.
+  intros Hp HB HC HA.
+  assert (HBC := wf_msub n p B C HB HC).
+  assert (HBA := wf_mmul n p m B A Hp HB HA).
+  assert (HCA := wf_mmul n p m C A Hp HC HA).
+  apply (mat_ext n m).
+  - apply (wf_mmul n p m); assumption.
+  - apply wf_msub; assumption.
+  - intros i j Hi Hj.
+    rewrite (mget_mmul n p m _ A i j Hp HBC HA Hi Hj).
+    rewrite (mget_msub n m _ _ i j HBA HCA Hi Hj).
+    rewrite (mget_mmul n p m B A i j Hp HB HA Hi Hj), (mget_mmul n p m C A i j Hp HC HA Hi Hj).
+    rewrite <- qsum_map_minus. apply qsum_map_ext. intros k Hk. apply in_seq in Hk.
+    rewrite (mget_msub n p B C i k HB HC Hi) by lia. ring.
+Qed.
+
+Lemma mmul_madd_r n p m A B C : 0 < p -> wf n p A -> wf p m B -> wf p m C ->
+  mmul A (madd B C) = madd (mmul A B) (mmul A C).
+Proof.
+  intros Hp HA HB HC.
+  assert (HBC := wf_madd p m B C HB HC).
+  assert (HAB := wf_mmul n p m A B Hp HA HB).
+  assert (HAC := wf_mmul n p m A C Hp HA HC).
+  apply (mat_ext n m).
+  - apply (wf_mmul n p m); assumption.
+  - apply wf_madd; assumption.
+  - intros i j Hi Hj.
+    rewrite (mget_mmul n p m A _ i j Hp HA HBC Hi Hj).
+    rewrite (mget_madd n m _ _ i j HAB HAC Hi Hj).
+    rewrite (mget_mmul n p m A B i j Hp HA HB Hi Hj), (mget_mmul n p m A C i j Hp HA HC Hi Hj).
+    rewrite <- qsum_map_plus. apply qsum_map_ext. intros k Hk. apply in_seq in Hk.
+    rewrite (mget_madd p m B C k j HB HC) by lia. ring.
+Qed.
+
+Lemma mmul_msub_r n p m A B C : 0 < p -> wf n p A -> wf p m B -> wf p m C ->
+  mmul A (msub B C) = msub (mmul A B) (mmul A C).
+Proof.
+  intros Hp HA HB HC.
+  assert (HBC := wf_msub p m B C HB HC).
+  assert (HAB := wf_mmul n p m A B Hp HA HB).
+  assert (HAC := wf_mmul n p m A C Hp HA HC).
+  apply (mat_ext n m).
+  - apply (wf_mmul n p m); assumption.
+  - apply wf_msub; assumption.
+  - intros i j Hi Hj.
+    rewrite (mget_mmul n p m A _ i j Hp HA HBC Hi Hj).
+    rewrite (mget_msub n m _ _ i j HAB HAC Hi Hj).
+    rewrite (mget_mmul n p m A B i j Hp HA HB Hi Hj), (mget_mmul n p m A C i j Hp HA HC Hi Hj).
+    rewrite <- qsum_map_minus. apply qsum_map_ext. intros k Hk. apply in_seq in Hk.
+    rewrite (mget_msub p m B C k j HB HC) by lia. ring.
+Qed.
+
+(* rank-one matrices *)
+Lemma wf_outer' n m u v : length u = n -> length v = m -> wf n m (outer u v).
+Proof. intros Hu Hv. assert (HO := wf_outer u v). rewrite Hu, Hv in HO. exact HO. Qed.
+
+Lemma mmul_outer_l n p m u v M : 0 < p -> length u = n -> length v = p -> wf p m M ->
+  mmul (outer u v) M = outer u (vmul v M).
+Proof.
+  intros Hp Hu Hv HM.
+  assert (HO := wf_outer' n p u v Hu Hv).
+  assert (HvM : length (vmul v M) = m) by (apply (length_vmul p m); assumption).
+  apply (mat_ext n m).
+  - apply (wf_mmul n p m); assumption.
+  - apply wf_outer'; assumption.
+  - intros i j Hi Hj.
+    rewrite (mget_mmul n p m _ M i j Hp HO HM Hi Hj).
+    rewrite mget_outer by lia.
+    rewrite (nth_vmul p m v M j Hp Hv HM Hj), <- qsum_map_scale_l.
+    apply qsum_map_ext. intros k Hk. apply in_seq in Hk.
+    rewrite mget_outer by lia. ring.
+Qed.
+
+Lemma mmul_outer_r n p m M u v : 0 < p -> wf n p M -> length u = p -> length v = m ->
+  mmul M (outer u v) = outer (mvec M u) v.
+Proof.
+  intros Hp HM Hu Hv.
+  assert (HO := wf_outer' p m u v Hu Hv).
+  assert (HMu : length (mvec M u) = n) by (rewrite length_mvec; apply (wf_length _ _ _ HM)).
+  apply (mat_ext n m).
+  - apply (wf_mmul n p m); assumption.
+  - apply wf_outer'; assumption.
+  - intros i j Hi Hj.
+    rewrite (mget_mmul n p m M _ i j Hp HM HO Hi Hj).
+    rewrite mget_outer by lia.
+    rewrite (nth_mvec n p M u i HM Hu Hi), <- qsum_map_scale_r.
+    apply qsum_map_ext. intros k Hk. apply in_seq in Hk.
+    rewrite mget_outer by lia. ring.
+Qed.
+
+(* ------------------------------------------------------------------ *)
+(* the algebraic core, for an abstract A with  A A^T = A^T A = I,       *)
+(* A 1 = 1  and  A diag(pi A) = diag(pi) A                              *)
+(* ------------------------------------------------------------------ *)
+Section Gen.
 Variables (n : nat) (T : mat) (pi : vec) (A Z M2 : mat).
 Hypothesis Hn : 0 < n.
 Hypothesis HT : wf n n T.
@@ -13,24 +130,257 @@ Hypothesis Hpi : length pi = n.
 Hypothesis HA : wf n n A.
 Hypothesis HZ : wf n n Z.
 Hypothesis HM2 : wf n n M2.
-Hypothesis T1 : rows_sum_one T.
-Hypothesis piT : vmul pi T = pi.
-Hypothesis pi1 : qsum pi = 1%Qc.
-Hypothesis pipos : forall x, In x pi -> x <> 0%Qc.        (* every microstate is populated *)
 Hypothesis A1 : rows_sum_one A.
-(* A is a permutation matrix *)
 Hypothesis AAt : mmul A (transpose A) = identity n.
 Hypothesis AtA : mmul (transpose A) A = identity n.
 Let K := msub (madd (identity n) (outer (ones n) pi)) T.
 Let pA := vmul pi A.
+(* column b of A is supported on the microstates whose weight is (pi A)_b *)
+Hypothesis ADA : mmul A (diag pA) = mmul (diag pi) A.
 Let N := mmul (transpose A) (mmul (diag pi) (mmul Z A)).
 Let TA := msub (madd (identity n) (outer (ones n) pA)) (mmul M2 (diag pA)).
-Hypothesis KZ : mmul K Z = identity n.
 Hypothesis ZK : mmul Z K = identity n.
-Hypothesis NM : mmul N M2 = identity n.
+Hypothesis MN : mmul M2 N = identity n.
+
+Let gen_wfAt : wf n n (transpose A).
+Proof. apply wf_transpose; assumption. Qed.
+Let gen_wfK : wf n n K.
+Proof. unfold K. apply wf_ipm; assumption. Qed.
+Let gen_len_pA : length pA = n.
+Proof. unfold pA. apply (length_vmul n n); assumption. Qed.
+Let gen_wfD : wf n n (diag pi).
+Proof. assert (HD := wf_diag pi). rewrite Hpi in HD. exact HD. Qed.
+Let gen_wfDA : wf n n (diag pA).
+Proof. assert (HD := wf_diag pA). rewrite gen_len_pA in HD. exact HD. Qed.
+Let gen_wfO : wf n n (outer (ones n) pi).
+Proof. apply wf_outer'; [apply length_ones|exact Hpi]. Qed.
+Let gen_wfOA : wf n n (outer (ones n) pA).
+Proof. apply wf_outer'; [apply length_ones|exact gen_len_pA]. Qed.
+
+Ltac wfs := repeat first
+  [ assumption | apply wf_identity | apply (wf_mmul n n n) | apply wf_madd | apply wf_msub ].
+
+Let assoc X Y W : wf n n X -> wf n n Y -> wf n n W -> mmul (mmul X Y) W = mmul X (mmul Y W).
+Proof. intros HX HY HW. apply (mmul_assoc n n n n); assumption. Qed.
+
+(* A^T 1 = 1 *)
+Let gen_At1 : mvec (transpose A) (ones n) = ones n.
+Proof.
+  rewrite <- (mvec_ones n n A HA A1) at 1.
+  rewrite <- (mvec_mmul n n n (transpose A) A _ Hn gen_wfAt HA (length_ones n)), AtA.
+  apply mvec_identity, length_ones.
+Qed.
+
+(* N (A^T K A) = diag (pi A) *)
+Let gen_NY : mmul N (mmul (transpose A) (mmul K A)) = diag pA.
+Proof.
+  unfold N.
+  rewrite (assoc (transpose A) (mmul (diag pi) (mmul Z A))) by wfs.
+  rewrite (assoc (diag pi) (mmul Z A)) by wfs.
+  rewrite (assoc Z A) by wfs.
+  rewrite <- (assoc A (transpose A) (mmul K A)) by wfs.
+  rewrite AAt, (mmul_identity_l n n (mmul K A)) by wfs.
+  rewrite <- (assoc Z K A) by wfs.
+  rewrite ZK, (mmul_identity_l n n A) by wfs.
+  rewrite <- ADA, <- (assoc (transpose A) A (diag pA)) by wfs.
+  rewrite AtA. apply (mmul_identity_l n n); wfs.
+Qed.
+
+(* hence M2 diag(pi A) = A^T K A *)
+Let gen_M2D : mmul M2 (diag pA) = mmul (transpose A) (mmul K A).
+Proof.
+  rewrite <- gen_NY.
+  assert (HN : wf n n N) by (unfold N; wfs).
+  rewrite <- (assoc M2 N) by wfs.
+  rewrite MN. apply (mmul_identity_l n n); wfs.
+Qed.
+
+(* A^T K A = I + 1 (pi A) - A^T T A *)
+Let gen_AtKA : mmul (transpose A) (mmul K A) =
+  msub (madd (identity n) (outer (ones n) pA)) (mmul (transpose A) (mmul T A)).
+Proof.
+  unfold K.
+  rewrite (mmul_msub_l n n n _ T A) by wfs.
+  rewrite (mmul_madd_l n n n _ _ A) by wfs.
+  rewrite (mmul_identity_l n n A) by wfs.
+  rewrite (mmul_outer_l n n n (ones n) pi A Hn (length_ones n) Hpi HA).
+  fold pA.
+  rewrite (mmul_msub_r n n n (transpose A)) by wfs.
+  rewrite (mmul_madd_r n n n (transpose A)) by wfs.
+  rewrite AtA.
+  rewrite (mmul_outer_r n n n (transpose A) (ones n) pA Hn gen_wfAt (length_ones n) gen_len_pA).
+  rewrite gen_At1. reflexivity.
+Qed.
+
+Lemma hs_identity_lumping_gen : TA = mmul (transpose A) (mmul T A).
+Proof.
+  unfold TA. rewrite gen_M2D, gen_AtKA.
+  assert (HW : wf n n (mmul (transpose A) (mmul T A))) by wfs.
+  assert (HIO : wf n n (madd (identity n) (outer (ones n) pA))) by wfs.
+  apply (mat_ext n n); [wfs|exact HW|].
+  intros i j Hi Hj.
+  rewrite (mget_msub n n _ _ i j HIO (wf_msub n n _ _ HIO HW) Hi Hj).
+  rewrite (mget_msub n n _ _ i j HIO HW Hi Hj). ring.
+Qed.
+End Gen.
+
+(* ------------------------------------------------------------------ *)
+(* the aggregation matrix of a bijective assignment                    *)
+(* ------------------------------------------------------------------ *)
+Lemma mget_aggregation nm aidx i j : i < length aidx -> j < nm ->
+  mget (aggregation nm aidx) i j = (if Nat.eqb (nth i aidx 0%nat) j then 1 else 0)%Qc.
+Proof.
+  intros Hi Hj. unfold mget, aggregation.
+  rewrite (nth_map_lt _ aidx i [] 0 Hi).
+  rewrite (nth_map_seq _ nm j 0%Qc Hj). reflexivity.
+Qed.
+
+Section Perm.
+Variables (n : nat) (aidx : list nat).
+Hypothesis Hn : 0 < n.
+Hypothesis Hlen : length aidx = n.
+Hypothesis Hnd : NoDup aidx.
+Hypothesis Hlt : forall a, In a aidx -> a < n.
+Let A := aggregation n aidx.
+
+Lemma perm_wf : wf n n A.
+Proof. unfold A. rewrite <- Hlen at 1. apply aggregation_rows. exact Hlt. Qed.
+
+Lemma perm_rows : rows_sum_one A.
+Proof. apply aggregation_rows. exact Hlt. Qed.
+
+Lemma perm_mget i j : i < n -> j < n ->
+  mget A i j = (if Nat.eqb (nth i aidx 0%nat) j then 1 else 0)%Qc.
+Proof. intros Hi Hj. apply mget_aggregation; lia. Qed.
+
+Lemma perm_lt i : i < n -> nth i aidx 0%nat < n.
+Proof. intros Hi. apply Hlt, nth_In. lia. Qed.
+
+Lemma perm_inj i j : i < n -> j < n -> nth i aidx 0%nat = nth j aidx 0%nat -> i = j.
+Proof. intros Hi Hj E. apply (proj1 (NoDup_nth aidx 0%nat) Hnd); lia. Qed.
+
+Lemma perm_surj a : a < n -> exists i, i < n /\ nth i aidx 0%nat = a.
+Proof.
+  intros Ha. assert (Hin : In a aidx).
+  { apply (NoDup_length_incl (l := aidx) (l' := seq 0 n) Hnd).
+    - rewrite seq_length. lia.
+    - intros x Hx. apply in_seq. specialize (Hlt x Hx). lia.
+    - apply in_seq. lia. }
+  destruct (In_nth aidx a 0 Hin) as [i [Hi E]]. exists i. split; [lia|exact E].
+Qed.
+
+(* A A^T = I *)
+Lemma perm_AAt : mmul A (transpose A) = identity n.
+Proof.
+  assert (HA := perm_wf). assert (HAt := wf_transpose n n A Hn HA).
+  apply (mat_ext n n); [apply (wf_mmul n n n); assumption|apply wf_identity|].
+  intros i j Hi Hj.
+  rewrite (mget_mmul n n n A _ i j Hn HA HAt Hi Hj), mget_identity by assumption.
+  transitivity (qsum (map (fun k => ((if Nat.eqb (nth i aidx 0%nat) k then 1 else 0) *
+                                     (if Nat.eqb (nth j aidx 0%nat) k then 1 else 0))%Qc) (seq 0 n))).
+  { apply qsum_map_ext. intros k Hk. apply in_seq in Hk.
+    rewrite (mget_transpose n n A k j Hn HA) by lia.
+    rewrite !perm_mget by lia. reflexivity. }
+  rewrite (qsum_delta (fun k => (if Nat.eqb (nth j aidx 0%nat) k then 1 else 0)%Qc) _ n (perm_lt i Hi)).
+  destruct (Nat.eqb_spec (nth j aidx 0%nat) (nth i aidx 0%nat)) as [E|E];
+    destruct (Nat.eqb_spec i j) as [E'|E']; try reflexivity.
+  - exfalso. apply E'. symmetry. apply perm_inj; assumption.
+  - exfalso. apply E. rewrite E'. reflexivity.
+Qed.
+
+(* A^T A = I *)
+Lemma perm_AtA : mmul (transpose A) A = identity n.
+Proof.
+  assert (HA := perm_wf). assert (HAt := wf_transpose n n A Hn HA).
+  apply (mat_ext n n); [apply (wf_mmul n n n); assumption|apply wf_identity|].
+  intros a b Ha Hb.
+  rewrite (mget_mmul n n n _ A a b Hn HAt HA Ha Hb), mget_identity by assumption.
+  destruct (perm_surj a Ha) as [i0 [Hi0 E0]].
+  transitivity (qsum (map (fun i => ((if Nat.eqb i0 i then 1 else 0) *
+                                     (if Nat.eqb (nth i aidx 0%nat) b then 1 else 0))%Qc) (seq 0 n))).
+  { apply qsum_map_ext. intros i Hi. apply in_seq in Hi.
+    rewrite (mget_transpose n n A a i Hn HA) by lia.
+    rewrite !perm_mget by lia. f_equal.
+    destruct (Nat.eqb_spec (nth i aidx 0%nat) a) as [E|E];
+      destruct (Nat.eqb_spec i0 i) as [E'|E']; try reflexivity.
+    - exfalso. apply E'. apply perm_inj; [assumption|lia|]. rewrite E0, E. reflexivity.
+    - exfalso. apply E. rewrite <- E'. exact E0. }
+  rewrite (qsum_delta (fun i => (if Nat.eqb (nth i aidx 0%nat) b then 1 else 0)%Qc) i0 n Hi0).
+  rewrite E0. reflexivity.
+Qed.
+
+(* A diag(pi A) = diag(pi) A *)
+Lemma perm_ADA pi : length pi = n ->
+  mmul A (diag (vmul pi A)) = mmul (diag pi) A.
+Proof.
+  intros Hpi. assert (HA := perm_wf).
+  assert (HpA : length (vmul pi A) = n) by (apply (length_vmul n n); assumption).
+  assert (HD : wf n n (diag pi)) by (assert (HD := wf_diag pi); rewrite Hpi in HD; exact HD).
+  assert (HDA : wf n n (diag (vmul pi A)))
+    by (assert (HD' := wf_diag (vmul pi A)); rewrite HpA in HD'; exact HD').
+  apply (mat_ext n n); [apply (wf_mmul n n n); assumption|apply (wf_mmul n n n); assumption|].
+  intros i b Hi Hb.
+  rewrite (mget_mmul n n n A _ i b Hn HA HDA Hi Hb).
+  rewrite (mget_mmul n n n _ A i b Hn HD HA Hi Hb).
+  transitivity (mget A i b * nth b (vmul pi A) 0)%Qc.
+  { rewrite <- (qsum_delta_r (fun k => (mget A i k * nth b (vmul pi A) 0)%Qc) b n Hb).
+    apply qsum_map_ext. intros k Hk. apply in_seq in Hk.
+    rewrite mget_diag by lia. ring. }
+  transitivity (nth i pi 0 * mget A i b)%Qc.
+  2:{ rewrite <- (qsum_delta (fun k => (nth k pi 0 * mget A k b)%Qc) i n Hi).
+      apply qsum_map_ext. intros k Hk. apply in_seq in Hk.
+      rewrite mget_diag by lia. ring. }
+  rewrite perm_mget by assumption.
+  destruct (Nat.eqb_spec (nth i aidx 0%nat) b) as [E|E]; [|ring].
+  rewrite (nth_vmul n n pi A b Hn Hpi HA Hb).
+  rewrite Qcmult_1_l, Qcmult_1_r.
+  rewrite <- (qsum_delta_r (fun k => nth k pi 0%Qc) i n Hi).
+  apply qsum_map_ext. intros k Hk. apply in_seq in Hk.
+  rewrite perm_mget by lia. f_equal.
+  destruct (Nat.eqb_spec (nth k aidx 0%nat) b) as [E1|E1];
+    destruct (Nat.eqb_spec k i) as [E2|E2]; try reflexivity.
+  - exfalso. apply E2. apply perm_inj; [lia|assumption|]. rewrite E1, E. reflexivity.
+  - exfalso. apply E1. rewrite E2. exact E.
+Qed.
+End Perm.
+
+(* Remark: with an abstract A that is only assumed to satisfy A A^T = A^T A = I and
+   A 1 = 1 the claim is false (an orthogonal matrix with unit row sums need not be a
+   permutation matrix): n = 3, T = [[1/2,1/2,0],[1/4,1/2,1/4],[0,1/2,1/2]],
+   pi = [1/4,1/2,1/4], A = [[2/3,-1/3,2/3],[-1/3,2/3,2/3],[2/3,2/3,-1/3]] gives
+   TA_00 = 29/54 but (A^T T A)_00 = 1/6. *)
+
+Section Identity.
+(* STATEMENT CHANGED: A specialised to aggregation n aidx with aidx a permutation *)
+Variables (n : nat) (T : mat) (pi : vec) (aidx : list nat) (Z M2 : mat).
+Hypothesis Hn : 0 < n.
+Hypothesis HT : wf n n T.
+Hypothesis Hpi : length pi = n.
+(* every macrostate holds exactly one microstate: aidx is a permutation of 0..n-1 *)
+Hypothesis Hlen : length aidx = n.
+Hypothesis Hnd : NoDup aidx.
+Hypothesis Hlt : forall a, In a aidx -> a < n.
+Let A := aggregation n aidx.
+Hypothesis HZ : wf n n Z.
+Hypothesis HM2 : wf n n M2.
+Let K := msub (madd (identity n) (outer (ones n) pi)) T.
+Let pA := vmul pi A.
+Let N := mmul (transpose A) (mmul (diag pi) (mmul Z A)).
+Let TA := msub (madd (identity n) (outer (ones n) pA)) (mmul M2 (diag pA)).
+(* only the left-inverse halves of the two certificates are used; the identity is purely
+   algebraic: T 1 = 1, pi T = pi, pi 1 = 1, pi_i <> 0, K Z = I and N M2 = I are not needed *)
+Hypothesis ZK : mmul Z K = identity n.
 Hypothesis MN : mmul M2 N = identity n.
 
 (* the lumped matrix is A^T T A: the microstate model in the order of the macrostate labels *)
 Lemma hs_identity_lumping : TA = mmul (transpose A) (mmul T A).
-Proof. TODO. Qed.
+Proof.
+  unfold TA, pA, N, K, A in *.
+  apply (hs_identity_lumping_gen n T pi (aggregation n aidx) Z M2); try assumption.
+  - apply perm_wf; assumption.
+  - apply perm_rows; assumption.
+  - apply perm_AAt; assumption.
+  - apply perm_AtA; assumption.
+  - apply perm_ADA; assumption.
+Qed.
 End Identity.
